@@ -13,12 +13,13 @@ import (
 // with dominator information.  Conditions are decomposed by go/cfg, so a block
 // that ends in a condition has Succs[0] = true edge, Succs[1] = false edge.
 type FCFG struct {
-	G     *cfg.CFG
-	Info  *types.Info
-	Body  *ast.BlockStmt
-	idom  map[*cfg.Block]*cfg.Block
-	order map[*cfg.Block]int
-	preds map[*cfg.Block][]*cfg.Block
+	G        *cfg.CFG
+	Info     *types.Info
+	Body     *ast.BlockStmt
+	boolDefs map[*types.Var]ast.Expr
+	idom     map[*cfg.Block]*cfg.Block
+	order    map[*cfg.Block]int
+	preds    map[*cfg.Block][]*cfg.Block
 }
 
 // Loc is a position in the CFG: node index i of block b.
@@ -392,6 +393,8 @@ func (f *FCFG) exprEntails(cond ast.Expr, want bool, b *cfg.Block, cls func(e as
 	var names []string
 	seenName := map[string]bool{}
 	nfree := 0
+	expanding := map[string]bool{}
+	expanded := map[ast.Expr]ast.Expr{}
 	var collect func(e ast.Expr)
 	collect = func(e ast.Expr) {
 		e = ast.Unparen(e)
@@ -406,6 +409,16 @@ func (f *FCFG) exprEntails(cond ast.Expr, want bool, b *cfg.Block, cls func(e as
 				collect(x.X)
 				collect(x.Y)
 				return
+			}
+		case *ast.Ident:
+			if nm, _ := cls(e); nm == "" {
+				if d := f.boolDef(x); d != nil && !expanding[x.Name] {
+					expanding[x.Name] = true
+					collect(d)
+					expanding[x.Name] = false
+					expanded[e] = d
+					return
+				}
 			}
 		}
 		n, neg := cls(e)
@@ -429,15 +442,12 @@ func (f *FCFG) exprEntails(cond ast.Expr, want bool, b *cfg.Block, cls func(e as
 		if oc == nil || ob == b {
 			continue
 		}
-		ast.Inspect(oc, func(n ast.Node) bool {
-			if e, ok := n.(ast.Expr); ok {
-				if nm, _ := cls(e); nm != "" && !seenName[nm] {
-					seenName[nm] = true
-					names = append(names, nm)
-				}
+		f.inspectCond(oc, func(e ast.Expr) {
+			if nm, _ := cls(e); nm != "" && !seenName[nm] {
+				seenName[nm] = true
+				names = append(names, nm)
 			}
-			return true
-		})
+		}, 0)
 	}
 	if len(names) > 14 {
 		return false
@@ -457,6 +467,9 @@ func (f *FCFG) exprEntails(cond ast.Expr, want bool, b *cfg.Block, cls func(e as
 			if x.Op == token.LOR {
 				return eval(x.X, v) || eval(x.Y, v)
 			}
+		}
+		if d, ok := expanded[e]; ok {
+			return eval(d, v)
 		}
 		a := atoms[e]
 		return v[a.name] != a.neg
@@ -478,6 +491,88 @@ func (f *FCFG) exprEntails(cond ast.Expr, want bool, b *cfg.Block, cls func(e as
 	return true
 }
 
+// boolDef: id names a boolean local of this function with exactly one
+// definition (`named := a == b`), never reassigned and never address-taken; the
+// defining expression is returned so that a test on the local reads as a test
+// on what it abbreviates.
+func (f *FCFG) boolDef(id *ast.Ident) ast.Expr {
+	if f.Info == nil || f.Body == nil {
+		return nil
+	}
+	v, ok := f.Info.Uses[id].(*types.Var)
+	if !ok || v.IsField() || v.Pkg() == nil || v.Parent() == v.Pkg().Scope() {
+		return nil
+	}
+	if bt, ok := v.Type().Underlying().(*types.Basic); !ok || bt.Kind() != types.Bool {
+		return nil
+	}
+	if f.boolDefs == nil {
+		f.boolDefs = map[*types.Var]ast.Expr{}
+	}
+	if d, ok := f.boolDefs[v]; ok {
+		return d
+	}
+	var def ast.Expr
+	n := 0
+	ast.Inspect(f.Body, func(m ast.Node) bool {
+		switch x := m.(type) {
+		case *ast.AssignStmt:
+			for i, l := range x.Lhs {
+				if lid, ok := l.(*ast.Ident); ok && (f.Info.Defs[lid] == v || f.Info.Uses[lid] == v) {
+					n++
+					if len(x.Lhs) == len(x.Rhs) && x.Tok == token.DEFINE {
+						def = x.Rhs[i]
+					} else {
+						n++
+					}
+				}
+			}
+		case *ast.ValueSpec:
+			for i, nm := range x.Names {
+				if f.Info.Defs[nm] == v {
+					n++
+					if i < len(x.Values) {
+						def = x.Values[i]
+					} else {
+						n++
+					}
+				}
+			}
+		case *ast.UnaryExpr:
+			if x.Op == token.AND {
+				if lid, ok := ast.Unparen(x.X).(*ast.Ident); ok && f.Info.Uses[lid] == v {
+					n += 2
+				}
+			}
+		}
+		return true
+	})
+	if n != 1 {
+		def = nil
+	}
+	// the definition must be a pure boolean expression (comparisons, calls are kept as atoms)
+	f.boolDefs[v] = def
+	return def
+}
+
+// inspectCond visits the sub-expressions of a condition, looking through
+// single-definition boolean locals.
+func (f *FCFG) inspectCond(cond ast.Expr, visit func(e ast.Expr), depth int) {
+	ast.Inspect(cond, func(n ast.Node) bool {
+		e, ok := n.(ast.Expr)
+		if !ok {
+			return true
+		}
+		visit(e)
+		if id, ok := e.(*ast.Ident); ok && depth < 3 {
+			if d := f.boolDef(id); d != nil {
+				f.inspectCond(d, visit, depth+1)
+			}
+		}
+		return true
+	})
+}
+
 // edgesEntailing lists all edges whose content implies goal.
 func (f *FCFG) edgesEntailing(cls func(e ast.Expr) (string, bool), goal func(v map[string]bool) bool) []cfgEdge {
 	var out []cfgEdge
@@ -487,14 +582,11 @@ func (f *FCFG) edgesEntailing(cls func(e ast.Expr) (string, bool), goal func(v m
 		}
 		// only blocks that mention at least one classified atom
 		mentions := false
-		ast.Inspect(f.CondOf(b), func(n ast.Node) bool {
-			if e, ok := n.(ast.Expr); ok {
-				if nm, _ := cls(e); nm != "" {
-					mentions = true
-				}
+		f.inspectCond(f.CondOf(b), func(e ast.Expr) {
+			if nm, _ := cls(e); nm != "" {
+				mentions = true
 			}
-			return !mentions
-		})
+		}, 0)
 		if !mentions {
 			continue
 		}
